@@ -437,6 +437,8 @@ class Sim:
                     return "skip"
                 if isdir(st["p"]):
                     self.taint["folder_moved_or_removed"] = True
+                elif not st["p"].endswith(".py"):
+                    self.taint["file_moved_to_ignored_name"] = True  # (non-module file handled as module 'stem': known)
                 W.get_resource(st["p"]).remove()
             elif a == "c_refactor":
                 if self.pending:
